@@ -215,7 +215,7 @@ def classify(r, expect_covers=True):
             r.status, r.reason = "undecided", "cover not satisfied (%d of %d): vacuity guard" % r.covers
 
 
-def run_units(tag, harnesses, per_harness_timeout, jobs=8, keep=False, modules=None):
+def run_units(tag, harnesses, per_harness_timeout, jobs=8, keep=False, modules=None, _depth=0):
     """Build + verify. Returns (dict harness->KaniResult, info dict)."""
     t0 = time.time()
     results = {h: KaniResult(h) for h in harnesses}
@@ -232,6 +232,28 @@ def run_units(tag, harnesses, per_harness_timeout, jobs=8, keep=False, modules=N
     # 1. compile only (also yields the mangled name of io::Error's drop glue)
     rc, out, secs = cargo_kani(root, harnesses, ["--only-codegen"], timeout=1800)
     info["compile_s"] = round(secs, 1)
+    if rc != 0 and _depth == 0:
+        from . import registry
+        groups = {}
+        for h in harnesses:
+            groups.setdefault(registry.K.get(h, {}).get("module", "?"), []).append(h)
+        if len(groups) > 1:
+            # one harness module no longer compiles against the working tree (e.g. a private function it calls changed
+            # its signature): decide the others, module by module
+            merged = {}
+            info["split_after_compile_error"] = sorted(groups)
+            info["verify_s"] = 0.0
+            for mod, hs in sorted(groups.items()):
+                r2, i2 = run_units(tag, hs, per_harness_timeout, jobs=jobs, modules=registry.modules_for(hs), _depth=1)
+                merged.update(r2)
+                info["verify_s"] = round(info["verify_s"] + i2.get("verify_s", 0.0), 1)
+                for k2 in ("cmd", "log_tail", "full_log", "scratch", "drop_glue_symbol"):
+                    if k2 in i2 and k2 not in info:
+                        info[k2] = i2[k2]
+                if "compile_error" in i2:
+                    info.setdefault("compile_error", i2["compile_error"])
+            info["wall_s"] = round(time.time() - t0, 1)
+            return merged, info
     if rc != 0:
         kind = "Kani internal compiler error" if "internal compiler error" in out else "compile error"
         tail = "\n".join(out.splitlines()[-40:])
